@@ -481,6 +481,14 @@ Qed.
 
 End ProtocolProofs.
 
+ (* the configured-answers theorem instantiated at the program of the code as it stands *)
+Lemma configured_code :
+  forall (E S A L : Type) (dm : bool) (cfg : config) (O : oracles E S A L) (a : A)
+         (h : list (event E S)) (e : option E) (s : S),
+  snd (call dm cfg O create_prog call_prog (run dm cfg O create_prog call_prog (init_state (Some a)) h) e s)
+  = spec dm cfg O create_prog call_prog (Some a) h e s.
+Proof. intros E S A L dm cfg O a h e s. apply configured_history_independent. left. reflexivity. Qed.
+
 (* ---------------------------------------------------------------------------------------------- *)
 (* the negative-powers switch                                                                     *)
 (* ---------------------------------------------------------------------------------------------- *)
